@@ -76,11 +76,16 @@ Theorem C19_usual_precedence_refuted : exists a b c e,
 Proof. exact usual_precedence_refuted. Qed.
 Print Assumptions C19_usual_precedence_refuted.
 
-(* `v = w` is true when both look-ups are missing (None == None): it selects every job that has neither tag *)
-Theorem C19_missing_equals_missing : forall v w e,
-  get v e = None -> get w e = None -> eval (single (AEq v (OVar w))) e = true.
-Proof. exact missing_equals_missing. Qed.
-Print Assumptions C19_missing_equals_missing.
+(* a missing left-hand side equals nothing: `model = bm25` (quotes forgotten, no tag bm25) selects no job without a
+   `model` tag.  Before fixes/C19-13 the comparison was None == None: true *)
+Theorem C19_missing_equals_nothing : forall v o e, get v e = None -> eval (single (AEq v o)) e = false.
+Proof. exact missing_equals_nothing. Qed.
+Print Assumptions C19_missing_equals_nothing.
+
+Theorem C19_none_equals_none_refuted : exists v w e,
+  ~ meaning_atom (AEq v (OVar w)) e /\ ostr_eqb (get v e) (oget (OVar w) e) = true.
+Proof. exact none_equals_none_refuted. Qed.
+Print Assumptions C19_none_equals_none_refuted.
 
 (* ---- the text of a filter (character-level grammar, model/FilterParse.v) ---- *)
 (* an accepted text has "and" or "or" -- in exactly that spelling -- between its tests *)
